@@ -234,4 +234,169 @@ theorem holds_pipeline (addr : Nat → Nat) (verify : Verify) (p : Proto) (c : C
       simp only [Bool.not_true, Bool.false_or, decide_eq_true_eq]
       exact submit_only_at_threshold addr verify p c g selfSig pref hist hsub
 
+/-! ## order of the history -/
+
+theorem mem_setSig_keep {sigs : List (UInt8 × Nat)} {i : UInt8} {s : Nat} {e : UInt8 × Nat}
+    (h : e ∈ sigs) (hv : i = e.1 → s = e.2) : e ∈ setSig sigs i s := by
+  induction sigs with
+  | nil => cases h
+  | cons hd tl ih =>
+    obtain ⟨j, t⟩ := hd
+    unfold setSig
+    simp only [List.mem_cons] at h
+    split
+    · rename_i hj
+      rcases h with h | h
+      · subst h
+        simp only at hj hv
+        have := hv hj.symm
+        subst this; subst hj; simp
+      · exact List.mem_cons_of_mem _ h
+    · rcases h with h | h
+      · subst h; simp
+      · exact List.mem_cons_of_mem _ (ih h)
+
+theorem collect_keep (verify : Verify) (pref : Nat) (skip : Msg → Bool) (sigs : List (UInt8 × Nat))
+    (ms : List Msg) (e : UInt8 × Nat) (h : e ∈ sigs)
+    (hv : ∀ x ∈ ms, skip x = false → x.idx = e.1 → x.aux2 = e.2) :
+    e ∈ collect verify pref skip sigs ms := by
+  induction ms generalizing sigs with
+  | nil => simpa [collect] using h
+  | cons x xs ih =>
+    have hv' : ∀ y ∈ xs, skip y = false → y.idx = e.1 → y.aux2 = e.2 :=
+      fun y hy => hv y (List.mem_cons_of_mem _ hy)
+    unfold collect
+    split
+    · exact ih _ h hv'
+    · rename_i hs
+      split
+      · exact ih _ (mem_setSig_keep h (fun hi => hv x (by simp) (by simpa using hs) hi)) hv'
+      · exact ih _ h hv'
+
+theorem collect_complete (verify : Verify) (pref : Nat) (skip : Msg → Bool) (sigs : List (UInt8 × Nat))
+    (ms : List Msg) (m : Msg) (hm : m ∈ ms) (hs : skip m = false) (hc : counts verify pref m = true)
+    (hv : ∀ x ∈ ms, skip x = false → x.idx = m.idx → x.aux2 = m.aux2) :
+    (m.idx, m.aux2) ∈ collect verify pref skip sigs ms := by
+  induction ms generalizing sigs with
+  | nil => cases hm
+  | cons x xs ih =>
+    have hv' : ∀ y ∈ xs, skip y = false → y.idx = m.idx → y.aux2 = m.aux2 :=
+      fun y hy => hv y (List.mem_cons_of_mem _ hy)
+    simp only [List.mem_cons] at hm
+    rcases hm with hm | hm
+    · subst hm
+      unfold collect
+      simp only [hs, Bool.false_eq_true, if_false, hc, if_true]
+      exact collect_keep _ _ _ _ _ _ (setSig_self_mem _ _ _) hv'
+    · unfold collect
+      split
+      · exact ih _ hm hv'
+      · split
+        · exact ih _ hm hv'
+        · exact ih _ hm hv'
+
+theorem countP_one_unique {α} (p : α → Bool) (l : List α) (h : l.countP p = 1) (x y : α)
+    (hx : x ∈ l) (hy : y ∈ l) (px : p x = true) (py : p y = true) : x = y := by
+  induction l with
+  | nil => cases hx
+  | cons a as ih =>
+    rw [List.countP_cons] at h
+    simp only [List.mem_cons] at hx hy
+    by_cases pa : p a = true
+    · simp only [pa, if_true] at h
+      have h0 : as.countP p = 0 := by omega
+      rw [List.countP_eq_zero] at h0
+      rcases hx with hx | hx
+      · rcases hy with hy | hy
+        · rw [hx, hy]
+        · exact absurd py (h0 y hy)
+      · exact absurd px (h0 x hx)
+    · simp only [pa] at h
+      have hx' : x ∈ as := by
+        rcases hx with hx | hx
+        · subst hx; exact absurd px pa
+        · exact hx
+      have hy' : y ∈ as := by
+        rcases hy with hy | hy
+        · subst hy; exact absurd py pa
+        · exact hy
+      exact ih (by simpa using h) hx' hy'
+
+/-- Beacon: exact, order-free description of the submitted map. -/
+theorem beacon_support_iff (verify : Verify) (self : UInt8) (selfSig pref : Nat) (st : List Msg)
+    (e : UInt8 × Nat) :
+    e ∈ support verify .beacon self selfSig pref st ↔
+      e = (self, selfSig) ∨
+      ∃ m ∈ st, m.idx ≠ self ∧ st.countP (fun x => x.idx == m.idx) = 1 ∧ counts verify pref m = true ∧
+        e = (m.idx, m.aux2) := by
+  constructor
+  · intro h
+    unfold support at h
+    rcases mem_setSig h with h' | h'
+    · exact Or.inl h'
+    · rcases mem_collect _ _ _ _ _ _ h' with h'' | ⟨m, hm, hs, hc, he⟩
+      · simp at h''
+      · right
+        simp only [skipRule, duplicated, Bool.or_eq_false_iff, decide_eq_false_iff_not, beq_eq_false_iff_ne] at hs
+        have hpos : 0 < st.countP (fun x => x.idx == m.idx) := List.countP_pos_iff.2 ⟨m, hm, by simp⟩
+        exact ⟨m, hm, hs.1, by omega, hc, he⟩
+  · rintro (h | ⟨m, hm, hne, hcnt, hc, he⟩)
+    · subst h; exact self_always_present _ _ _ _ _ _
+    · subst he
+      unfold support
+      apply mem_setSig_keep
+      · apply collect_complete _ _ _ _ _ m hm _ hc
+        · intro x hx _ hxi
+          have : x = m := countP_one_unique _ st hcnt x m hx hm (by simp [hxi]) (by simp)
+          rw [this]
+        · simp only [skipRule, duplicated, Bool.or_eq_false_iff, decide_eq_false_iff_not, beq_eq_false_iff_ne]
+          exact ⟨hne, by omega⟩
+      · intro hself; exact absurd hself.symm hne
+
+/-- `history_order_irrelevant` (beacon): permuting the history of network messages changes neither the
+    set of supporting signatures nor the submission decision. -/
+theorem beacon_history_order_irrelevant (addr : Nat → Nat) (verify : Verify) (c : Ctx) (g : Params)
+    (selfSig pref : Nat) (h1 h2 : List Msg) (hp : h1.Perm h2) :
+    (∀ e, e ∈ (pipeline addr verify .beacon c g selfSig pref h1).1 ↔
+          e ∈ (pipeline addr verify .beacon c g selfSig pref h2).1) ∧
+    (pipeline addr verify .beacon c g selfSig pref h1).2 =
+      (pipeline addr verify .beacon c g selfSig pref h2).2 := by
+  have hst : (stored addr .beacon c h1).Perm (stored addr .beacon c h2) := hp.filter _
+  have hmem : ∀ e, e ∈ support verify .beacon (selfIdx c) selfSig pref (stored addr .beacon c h1) ↔
+      e ∈ support verify .beacon (selfIdx c) selfSig pref (stored addr .beacon c h2) := by
+    intro e
+    rw [beacon_support_iff, beacon_support_iff]
+    constructor
+    · rintro (h | ⟨m, hm, a, b, c', d⟩)
+      · exact Or.inl h
+      · exact Or.inr ⟨m, hst.mem_iff.1 hm, a, by rw [← hst.countP_eq]; exact b, c', d⟩
+    · rintro (h | ⟨m, hm, a, b, c', d⟩)
+      · exact Or.inl h
+      · exact Or.inr ⟨m, hst.mem_iff.2 hm, a, by rw [hst.countP_eq]; exact b, c', d⟩
+  refine ⟨hmem, ?_⟩
+  have hnd : ∀ h, (support verify .beacon (selfIdx c) selfSig pref (stored addr .beacon c h)).Nodup :=
+    fun h => List.Pairwise.of_map (·.1) (fun a b hne hab => hne (by rw [hab]))
+      (support_at_most_one_per_member _ _ _ _ _ _)
+  have hperm := (List.perm_ext_iff_of_nodup (hnd h1) (hnd h2)).2 hmem
+  simp only [pipeline, passesGate, hperm.length_eq]
+
+/-- tecdsa / inactivity: the history order matters only through "which message of a sender came
+    first": a sender whose first stored message does not count contributes nothing, whatever it sent
+    later (precise form of `history_order_irrelevant` for the first-per-sender variants). -/
+theorem first_message_decides (verify : Verify) (p : Proto) (hp : p ≠ .beacon) (self : UInt8)
+    (selfSig pref : Nat) (st : List Msg) (e : UInt8 × Nat)
+    (h : e ∈ support verify p self selfSig pref st) (hne : e.1 ≠ self) :
+    ∃ m ∈ dedup st, m.idx = e.1 ∧ m.aux2 = e.2 ∧ counts verify pref m = true := by
+  unfold support at h
+  rcases mem_setSig h with h' | h'
+  · subst h'; exact absurd rfl hne
+  · rcases mem_collect _ _ _ _ _ _ h' with h'' | ⟨m, hm, _, hc, he⟩
+    · simp at h''
+    · subst he
+      refine ⟨m, ?_, rfl, rfl, hc⟩
+      cases p
+      · exact absurd rfl hp
+      · exact hm
+      · exact hm
+
 end KeepVerif.C13
